@@ -70,6 +70,11 @@ type Options struct {
 	// HostTimers gives the instance the timer event definition builder on the
 	// host clock (real time): only for timers that are not due during the test.
 	HostTimers bool
+	// ForeignDefs: the instance is created with the package-level
+	// bpmn.NewProcess(processElement, definitions) and a definitions value
+	// that is NOT the element's own document (schema.DefaultDefinitions()), as
+	// the repository's engine tests do for explicit instantiation.
+	ForeignDefs bool
 }
 
 // busySource hands every new consumer a retained event at registration.
@@ -136,7 +141,14 @@ func NewFromDefs(defs *schema.Definitions, tr *quiesce.Tracker, o Options) (*Ins
 		opts = append(opts, bpmn.WithEventEgress(busySource{fan}), bpmn.WithEventIngress(fan))
 	}
 	opts = append(opts, o.Extra...)
-	p, err := bpmn.NewEngine().NewProcess(defs, opts...)
+	var p *bpmn.Process
+	var err error
+	if o.ForeignDefs && len(*defs.Processes()) > 0 {
+		foreign := schema.DefaultDefinitions()
+		p, err = bpmn.NewProcess(&(*defs.Processes())[0], &foreign, opts...)
+	} else {
+		p, err = bpmn.NewEngine().NewProcess(defs, opts...)
+	}
 	if err != nil {
 		cancel()
 		return nil, fmt.Errorf("new process: %w", err)
